@@ -63,7 +63,7 @@ def parse_directive(text):
             d['uses'] += mu.group(1).split()
             i = mu.end()
             continue
-        mm = re.compile(r'\s*(\w+)\s*((?:"[^"]*"|[^\s{"]+)?(?:\s*#\d+)?)\s*(\{|$|\n)', re.M).match(body, i)
+        mm = re.compile(r'\s*(\w+)\s*((?:"[^"]*"|`[^`]*`|[^\s{"`]+)?(?:\s*#\d+)?)\s*(\{|$|\n)', re.M).match(body, i)
         if not mm:
             if body[i:].strip() == '':
                 break
@@ -123,10 +123,10 @@ class Unit:
 
 
 def _occurrence(arg):
-    mm = re.match(r'^"([^"]*)"\s*(?:#(\d+))?$', arg)
+    mm = re.match(r'^(?:"([^"]*)"|`([^`]*)`)\s*(?:#(\d+))?$', arg)
     if not mm:
         raise AnchorError(f'bad anchor argument {arg!r}')
-    return mm.group(1), int(mm.group(2)) if mm.group(2) else None
+    return (mm.group(1) if mm.group(1) is not None else mm.group(2)), int(mm.group(3)) if mm.group(3) else None
 
 
 def _find_text(hay_norm_src, text, needle, occ, what):
@@ -249,7 +249,7 @@ def apply_sections(unit, text, d, fn_name, what):
             mc = re.match(r'^(idiom_\w+)\s*\(', call)
             if not mc:
                 raise AnchorError(f'{what}: subst replacement must be a call of an idiom_* helper')
-            unit.subst_checks.append((mc.group(1), needle, what))
+            unit.subst_checks.append((mc.group(1), needle, what, call))
             edits.append((idx, ('REPL', idx + len(needle), call)))
         elif nm == 'impl_inject':
             # first '{' of the extracted text at depth 0 that belongs to an impl
@@ -437,15 +437,32 @@ def process(unit_name, tpl_path=None, out_dir=None):
         unit.emit(tail)
     full = ''.join(unit.out)
     fm = rp.mask(full)
-    for (helper, needle, what) in unit.subst_checks:
-        got = list(rp.find_items(full, fm, 'fn', helper, (0, None), 1))
+    for (helper, needle, what, call) in unit.subst_checks:
+        got = []
+        for lvl in (1, 2, 3):
+            got += list(rp.find_items(full, fm, 'fn', helper, (0, None), lvl))
         if len(got) != 1:
             raise AnchorError(f'{what}: subst helper {helper} not found in the unit')
         (hs, hh, he) = got[0]
         body = full[hh + 1:he - 1]
         pre = full[max(0, hs - 200):hh]
-        if 'external_body' not in pre or rp.norm(body) != rp.norm(needle):
-            raise AnchorError(f'{what}: body of {helper} is not the replaced expression `{needle}`')
+        # parameters of the helper and arguments of the call: the helper body must be the replaced expression with each
+        # argument expression abstracted to the corresponding parameter
+        sig = full[hs:hh]
+        po = sig.index('(')
+        pc = rp.match_bracket(rp.mask(sig), po)
+        params = [p.split(':')[0].strip() for p in rp.split_top(sig[po + 1:pc]) if p.strip()]
+        co = call.index('(')
+        cc = rp.match_bracket(rp.mask(call), co)
+        args = [a for a in rp.split_top(call[co + 1:cc]) if a.strip()]
+        suffix = call[cc + 1:].strip()
+        expect = needle
+        if suffix and expect.strip().endswith(suffix):
+            expect = expect.strip()[:-len(suffix)]
+        for a_, p_ in zip(args, params):
+            expect = expect.replace(a_, p_)
+        if 'external_body' not in pre or len(args) != len(params) or rp.norm(body) != rp.norm(expect):
+            raise AnchorError(f'{what}: body of {helper} is not the replaced expression `{needle}` (expected `{expect.strip()}`)')
     out_path = os.path.join(out_dir, unit_name + '.rs')
     with open(out_path, 'w') as f:
         f.write(full)
